@@ -550,6 +550,20 @@ fn res_json(r: &BgResult) -> Value {
     }
 }
 
+/// Extra input headers for `Op::Header`: order-sensitive (each sees which of the others came first).
+pub fn write_extra_headers(dir: &Path) {
+    for k in 0..3 {
+        let mut t = format!("#ifndef BGV_EXTRA_{k}\n#define BGV_EXTRA_{k} {k}\n");
+        for j in 0..3 {
+            if j != k {
+                t.push_str(&format!("#ifdef BGV_EXTRA_{j}\ntypedef int extra_{k}_after_{j};\n#endif\n"));
+            }
+        }
+        t.push_str(&format!("#ifdef MACRO_A\ntypedef int extra_{k}_after_main;\n#endif\nstruct Extra{k} {{ int v{k}; }};\n#endif\n"));
+        std::fs::write(dir.join(format!("extra_{k}.h")), t).ok();
+    }
+}
+
 pub fn worker_c13(req: &Value, _io: &mut ServerIo) -> Value {
     let dir = Path::new(req["dir"].as_str().unwrap()).to_path_buf();
     let case: Case = match serde_json::from_value(req["case"].clone()) {
@@ -561,17 +575,7 @@ pub fn worker_c13(req: &Value, _io: &mut ServerIo) -> Value {
     let hname = if case.cpp { "in.hpp" } else { "in.h" };
     std::fs::write(dir.join(hname), if case.cpp { HEADER_CPP } else { HEADER_C }).ok();
     std::fs::write(dir.join("rustfmt.toml"), "max_width = 70\n").ok();
-    // extra input headers: order-sensitive (each sees which of the others came first)
-    for k in 0..3 {
-        let mut t = format!("#ifndef BGV_EXTRA_{k}\n#define BGV_EXTRA_{k} {k}\n");
-        for j in 0..3 {
-            if j != k {
-                t.push_str(&format!("#ifdef BGV_EXTRA_{j}\ntypedef int extra_{k}_after_{j};\n#endif\n"));
-            }
-        }
-        t.push_str(&format!("#ifdef MACRO_A\ntypedef int extra_{k}_after_main;\n#endif\nstruct Extra{k} {{ int v{k}; }};\n#endif\n"));
-        std::fs::write(dir.join(format!("extra_{k}.h")), t).ok();
-    }
+    write_extra_headers(&dir);
     let header = dir.join(hname).to_str().unwrap().to_string();
     let progress = |v: &Value| {
         let _ = std::fs::write(dir.join("progress.json"), v.to_string());
